@@ -422,7 +422,11 @@ class TranslatorC(Translator):
                 arg1 = self.from_expr(expr.args[1])
 
                 if expr.size <= self.NATIVE_INT_MAX_SIZE:
-                    out = '%s%d(%s, %s)' % (
+                    # The helpers return a signed intN_t: keep the value
+                    # unsigned, as every other operation (a negative result
+                    # used as a pointer would be sign extended to 64 bits)
+                    out = '((uint%d_t)%s%d(%s, %s))' % (
+                        expr.args[0].size,
                         expr.op,
                         expr.args[0].size,
                         arg0,
